@@ -307,7 +307,22 @@ func runW18(c *ctx, cfg wcfg, h1 string, failAt string, mode string, st2, op2 by
 	if !ok || mode == "resetop" {
 		// resetop is compared through plain WH histories containing "ro" ops against the model
 		if !ok {
-			c.emit("W18 %s %s %s %s %d.%d %s -> panic - - -", cfg.tok(), h1, failAt, mode, st2, op2, h2)
+			// a fresh writer over a buffer of the same size must then panic as well
+			// (buffer too small for the new side's header): same behaviour
+			freshPanics := false
+			func() {
+				defer func() {
+					if recover() != nil {
+						freshPanics = true
+					}
+				}()
+				wsutil.NewWriterBuffer(newRecWriter(), ws.State(st2), ws.OpCode(op2), make([]byte, a.VerifRawLen()))
+			}()
+			res := "panic"
+			if freshPanics {
+				res = "bothpanic"
+			}
+			c.emit("W18 %s %s %s %s %d.%d %s -> %s - - -", cfg.tok(), h1, failAt, mode, st2, op2, h2, res)
 		}
 		return
 	}
